@@ -522,16 +522,19 @@ def luminaVerifyRange (H : HashFn) (p : NsProof) (root : NsHash) (rawLeaves : Li
   | .error e => .error e
   | .ok () => verifyRange H p root rawLeaves ns
 
+/-- the shape validation `verify_complete_namespace` does first: an absence proof with a leaf is validated with the
+    leaf's own namespace range in place of the requested namespace -/
+def completeNamespaceShape (p : NsProof) (ns : Bytes) : Except Err Unit :=
+  match (if p.isAbsence then p.leaf else none) with
+  | some leaf =>
+    if ltB leaf.maxNs leaf.minNs then .error .malformedProof
+    else validateShape p leaf.minNs leaf.maxNs
+  | none => validateShape p ns ns
+
 /-- lumina's inherent `NamespaceProof::verify_complete_namespace` -/
 def luminaVerifyCompleteNamespace (H : HashFn) (p : NsProof) (root : NsHash) (rawLeaves : List Bytes) (ns : Bytes) :
     Except Err Unit :=
-  let shape : Except Err Unit :=
-    match (if p.isAbsence then p.leaf else none) with
-    | some leaf =>
-      if ltB leaf.maxNs leaf.minNs then .error .malformedProof
-      else validateShape p leaf.minNs leaf.maxNs
-    | none => validateShape p ns ns
-  match shape with
+  match completeNamespaceShape p ns with
   | .error e => .error e
   | .ok () => verifyCompleteNamespace H p root rawLeaves ns
 
